@@ -219,6 +219,7 @@ def run(rep):
             hname, term = cands[0]
             ev2 = K.SkelEval(ogp, m, {}, '', None)
             ev2.markers = False
+            ev2.params.append({(tq, p_['pat'].get('name')): m.module for p_ in crate.fns[tq]['params'] if p_['ty'].replace(' ', '').endswith('Module')})
             try:
                 got2 = [' '.join(str(ev2.tokens(x)).split()) for x in ev2.iterable(ev2.ev(term), term)]
                 rep.check([squash(x) for x in got2] == [squash(x) for x in got], 'C15.section-wiring', 'constants-at-output', where,
